@@ -231,13 +231,25 @@ def removePeerConnection (s : St) (cid : Nat) (reason : Reason) : St :=
   | none => s
   | some c =>
     let s := { s with connections := erase s.connections cid, peerSockets := erase s.peerSockets cid }
-    let s := match findConnectionPeer s c with
+    let s := if Config.removeCleansTables then
+        { s with halfReady := erase s.halfReady cid, socketPeers := erase s.socketPeers cid }
+      else s
+    let peerI := findConnectionPeer s c
+    let isCurrent : Bool :=
+      if Config.removeOnlyOwn then
+        match peerI.bind (fun i => s.peers[i]?) with
+        | some p => !(p.connection.isSome && p.connection != some cid)
+        | none => true
+      else true
+    let s := match peerI with
       | some i =>
-        s.modPeer i fun p =>
-          { p with connection := none, lastDisconnect := some s.now,
-                   reason := match p.reason with | none => some reason | r => r }
+        if isCurrent then
+          s.modPeer i fun p =>
+            { p with connection := none, lastDisconnect := some s.now,
+                     reason := match p.reason with | none => some reason | r => r }
+        else s
       | none => s
-    let s := { s with peerWaiting := s.peerWaiting.filter (·.1 != c.hostIdentity) }
+    let s := if isCurrent then { s with peerWaiting := s.peerWaiting.filter (·.1 != c.hostIdentity) } else s
     -- application readiness: per app, any configured peer with a ready connection
     let appPeers (ai : Nat) : List Nat :=
       s.routes.flatMap fun (_, tbl) => tbl.flatMap fun (k, ps) => if k == RKey.app ai then ps else []
@@ -269,7 +281,9 @@ def closeConnectionSocket (s : St) (cid : Nat) (reason : Reason) : St :=
 def addPeerConnection (s : St) (c : Conn) : St × Bool :=
   let s := { s with conns := s.conns ++ [c] }
   if s.stopping then
-    (s.modConn c.id fun x => { x with sockClosed := true, hasSocket := false }, false)
+    (s.modConn c.id fun x => if Config.rejectStopsWorkers
+        then { x with sockClosed := true, hasSocket := false, state := .closed, workersStopped := true }
+        else { x with sockClosed := true, hasSocket := false }, false)
   else
     let dup := c.nodeName != "" && (match peerIdx? s c.nodeName with
       | some i => match s.peers[i]? with
@@ -277,7 +291,9 @@ def addPeerConnection (s : St) (c : Conn) : St × Bool :=
         | none => false
       | none => false)
     if dup then
-      (s.modConn c.id fun x => { x with sockClosed := true, hasSocket := false }, false)
+      (s.modConn c.id fun x => if Config.rejectStopsWorkers
+          then { x with sockClosed := true, hasSocket := false, state := .closed, workersStopped := true }
+          else { x with sockClosed := true, hasSocket := false }, false)
     else
       let s := { s with connections := s.connections ++ [c.id], peerSockets := s.peerSockets ++ [c.id],
                         socketPeers := if s.socketPeers.contains c.id then s.socketPeers else s.socketPeers ++ [c.id] }
@@ -696,10 +712,8 @@ def connectToPeer (s : St) (pi : Nat) : St :=
       let s := s.emit (.dialled pi)
       if plan == "fail" then
         -- `remove_peer_connection(conn, SOCKET_FAIL)`: socket and workers are left alone
-        let s := removePeerConnection s cid .sockFail
-        if Config.connectFailCloses then
-          (s.modConn cid fun c => { c with sockClosed := true, workersStopped := true, state := .closed })
-        else s
+        if Config.connectFailCloses then closeConnectionSocket s cid .sockFail
+        else removePeerConnection s cid .sockFail
       else if plan == "inp" then
         demandAttention { s with inProgress := s.inProgress ++ [cid] } cid
       else
